@@ -205,6 +205,7 @@ Definition app_data (o : op) : option bytes :=
   | AppendLine l => Some (l ++ [NL])
   | AppendFrag d => Some d
   | AppendCRLF l => Some (l ++ [CR; NL])
+  | AppendRep u k t => Some (rep_data u k t)
   | _ => None
   end.
 
